@@ -282,6 +282,7 @@ var vdMissSignature = map[string]string{
 	"union-no-member":    "validate/union-no-member",
 	"key-mismatch":       "validate/key-mismatch",
 	"leaflist-dup":       "validate/leaflist-duplicates",
+	"leaflist-dup-union": "validate/leaflist-duplicates",
 	"list-max":           "validate/list-max-elements",
 	"list-min":           "validate/list-min-elements",
 	"leaflist-max":       "validate/leaflist-max-elements",
@@ -426,7 +427,13 @@ func vdCollect(p *reg.Pkg, sp reflect.Value, e *yang.Entry, path string, depth i
 			}
 			cfg := !ce.ReadOnly()
 			fvv := fv
-			*sites = append(*sites, vdSite{class: map[bool]string{true: "leaflist-dup", false: "leaflist-dup-state"}[cfg], fault: cfg, desc: here,
+			dupClass := map[bool]string{true: "leaflist-dup", false: "leaflist-dup-state"}[cfg]
+			if cfg && ft.Elem().Kind() == reflect.Interface {
+				// union members (pointers with wrapper unions): a class of its own, so that every tree
+				// that has such a leaf-list is mutated there
+				dupClass = "leaflist-dup-union"
+			}
+			*sites = append(*sites, vdSite{class: dupClass, fault: cfg, desc: here,
 				apply: func(g *treeGen) (func(), bool) {
 					nv := reflect.MakeSlice(fvv.Type(), 0, fvv.Len()+1)
 					nv = reflect.AppendSlice(nv, fvv)
@@ -758,7 +765,7 @@ type vdValidateReplay struct {
 }
 
 var vdClassList = []string{"int-range", "string-length", "binary-length", "enum-undefined", "union-enum-int64", "identity-undefined", "union-no-member",
-	"key-mismatch", "leaflist-dup", "leaflist-dup-state", "list-max", "list-min", "leaflist-max", "choice-two-cases"}
+	"key-mismatch", "leaflist-dup", "leaflist-dup-union", "leaflist-dup-state", "list-max", "list-min", "leaflist-max", "choice-two-cases"}
 
 func vdValidateStream(rng *rand.Rand, n int, tier string, out string) (*Summary, error) {
 	sum := &Summary{Rule: "random schema-conforming trees of every generated package and, per tree, one single-fault mutation for every fault class " +
